@@ -98,6 +98,7 @@ pub fn generate(seed: u64, tier: Tier) -> Scenario {
             // generated stream (all features, incl. the constructs the other checks avoid)
             let mut cfg = if rng.chance(1, 6) { GenConfig::medium() } else { GenConfig::small() }.swarm(&mut rng);
             cfg.safe = false;
+            cfg.vardct = rng.chance(1, 3);
             let prog = random_program(&mut rng, &cfg);
             match prog.encode() {
                 Ok((b, m)) => {
